@@ -1,0 +1,18 @@
+//go:build verif
+
+// Package verifhook provides yield points for model-based conformance checking.
+// With the build tag `verif` off every call is an empty inlineable function.
+package verifhook
+
+// Hook, when set, is called at every yield point. It may block (scheduler gate).
+var Hook func(point string, a, b uint64)
+
+// Enabled reports whether hooks are compiled in.
+const Enabled = true
+
+// Yield marks a linearization / scheduling point.
+func Yield(point string, a, b uint64) {
+	if h := Hook; h != nil {
+		h(point, a, b)
+	}
+}
